@@ -23,7 +23,7 @@ judge = B.make_judge(required=["c02"], project=T.proj_flow)
 
 
 def gen(rng, tier, mult=1):
-    n = (400 if tier == "quick" else 6000) * mult
+    n = (2000 if tier == "quick" else 30000) * mult
     for i in range(n):
         style = ["edge", "faulty", "silent", "abort", "random", "clean"][i % 6]
         yield T.gen_transfer_case(rng, script_style=style, simple_cfg=(i % 3 == 0),
